@@ -385,29 +385,29 @@ pub fn compound<S: Src, const SHAPE: usize>(s: &mut S) {
 }
 
 common::register! {
-    q_sr_0 = sr::<_, 0, 296> => 2,
-    q_sr_2 = sr::<_, 2, 344> => 3,
-    q_sr_31 = sr::<_, 31, 1040> => 32,
-    q_sr_32 = sr::<_, 32, 1064> => 33,
-    q_rr_0 = rr::<_, 0, 276> => 2,
-    q_rr_1 = rr::<_, 1, 300> => 2,
-    q_rr_31 = rr::<_, 31, 1020> => 32,
-    q_rr_32 = rr::<_, 32, 1044> => 33,
-    q_bye_0 = bye::<_, 0, 536> => 2,
-    q_bye_2 = bye::<_, 2, 544> => 3,
-    q_bye_31 = bye::<_, 31, 660> => 32,
-    q_bye_32 = bye::<_, 32, 664> => 33,
-    q_app = app => 2,
-    q_unknown = unknown => 2,
-    q_sdes_item = sdes_item => 2,
-    q_sdes_chunk_0 = sdes_chunk::<_, 0, 16> => 2,
-    q_sdes_chunk_2 = sdes_chunk::<_, 2, 536> => 3,
-    q_sdes_0 = sdes::<_, 0, 0, 268> => 2,
-    q_sdes_1x1 = sdes::<_, 1, 1, 536> => 2,
-    q_sdes_2x1 = sdes::<_, 2, 1, 800> => 3,
-    q_sdes_1x2 = sdes::<_, 1, 2, 800> => 3,
-    t_sdes_31x0 = sdes::<_, 31, 0, 516> => 32,
-    t_sdes_32x0 = sdes::<_, 32, 0, 520> => 33,
+    q_sr_0 = sr::<_, 0, 296> => 320,
+    q_sr_2 = sr::<_, 2, 344> => 320,
+    q_sr_31 = sr::<_, 31, 1040> => 320,
+    q_sr_32 = sr::<_, 32, 1064> => 320,
+    q_rr_0 = rr::<_, 0, 276> => 320,
+    q_rr_1 = rr::<_, 1, 300> => 320,
+    q_rr_31 = rr::<_, 31, 1020> => 320,
+    q_rr_32 = rr::<_, 32, 1044> => 320,
+    q_bye_0 = bye::<_, 0, 536> => 320,
+    q_bye_2 = bye::<_, 2, 544> => 320,
+    q_bye_31 = bye::<_, 31, 660> => 320,
+    q_bye_32 = bye::<_, 32, 664> => 320,
+    q_app = app => 320,
+    q_unknown = unknown => 320,
+    q_sdes_item = sdes_item => 320,
+    q_sdes_chunk_0 = sdes_chunk::<_, 0, 16> => 320,
+    q_sdes_chunk_2 = sdes_chunk::<_, 2, 536> => 320,
+    q_sdes_0 = sdes::<_, 0, 0, 268> => 320,
+    q_sdes_1x1 = sdes::<_, 1, 1, 536> => 320,
+    q_sdes_2x1 = sdes::<_, 2, 1, 800> => 320,
+    q_sdes_1x2 = sdes::<_, 1, 2, 800> => 320,
+    t_sdes_31x0 = sdes::<_, 31, 0, 516> => 320,
+    t_sdes_32x0 = sdes::<_, 32, 0, 520> => 320,
     q_tfb_pli = fb_pli::<_, true> => 2,
     q_pfb_pli = fb_pli::<_, false> => 2,
     q_tfb_sli = fb_sli::<_, true, 1> => 2,
@@ -436,17 +436,17 @@ common::register! {
     q_compound_nested = compound::<_, 4> => 3,
     q_compound_foreign = compound::<_, 5> => 3,
     q_compound_wrapped = compound::<_, 6> => 3,
-    t_sr_1 = sr::<_, 1, 320> => 2,
-    t_sr_3 = sr::<_, 3, 368> => 4,
-    t_rr_2 = rr::<_, 2, 324> => 3,
-    t_rr_3 = rr::<_, 3, 348> => 4,
-    t_bye_1 = bye::<_, 1, 540> => 2,
-    t_bye_3 = bye::<_, 3, 548> => 4,
-    t_sdes_chunk_1 = sdes_chunk::<_, 1, 276> => 2,
-    t_sdes_chunk_3 = sdes_chunk::<_, 3, 800> => 4,
-    t_sdes_1x3 = sdes::<_, 1, 3, 1060> => 4,
-    t_sdes_2x2 = sdes::<_, 2, 2, 1320> => 3,
-    t_sdes_3x1 = sdes::<_, 3, 1, 1060> => 4,
+    t_sr_1 = sr::<_, 1, 320> => 320,
+    t_sr_3 = sr::<_, 3, 368> => 320,
+    t_rr_2 = rr::<_, 2, 324> => 320,
+    t_rr_3 = rr::<_, 3, 348> => 320,
+    t_bye_1 = bye::<_, 1, 540> => 320,
+    t_bye_3 = bye::<_, 3, 548> => 320,
+    t_sdes_chunk_1 = sdes_chunk::<_, 1, 276> => 320,
+    t_sdes_chunk_3 = sdes_chunk::<_, 3, 800> => 320,
+    t_sdes_1x3 = sdes::<_, 1, 3, 1060> => 320,
+    t_sdes_2x2 = sdes::<_, 2, 2, 1320> => 320,
+    t_sdes_3x1 = sdes::<_, 3, 1, 1060> => 320,
 }
 
 common::register_hashmap! {
